@@ -52,7 +52,7 @@ func NormPanic(p interface{}) string {
 		s = "non-string panic"
 	}
 	// keep the class, drop instance data
-	for _, cut := range []string{"interface conversion", "index out of range", "nil pointer dereference", "slice bounds out of range", "reflect:", "invalid memory address"} {
+	for _, cut := range []string{"No value given to set", "interface conversion", "index out of range", "nil pointer dereference", "slice bounds out of range", "reflect:", "invalid memory address"} {
 		if strings.Contains(s, cut) {
 			return cut
 		}
